@@ -24,6 +24,20 @@ def main():
         dest = os.path.join(ROOT, src) if not os.path.isabs(src) else src
         meta = json.load(open(os.path.join(dest, "meta.json")))
     patch = os.path.join(dest, "patch.diff")
+    alt = os.environ.get("VERIF_REPO")
+    if alt:
+        # the scratch worktree already carries the change: run the checks against it, /repo is not touched
+        results = {}
+        tier = os.environ.get("VERIF_TIER", "quick")
+        for c in checks:
+            p = subprocess.run(["python3", os.path.join(ROOT, "gen", "check.py"), c, tier], capture_output=True, text=True, cwd=ROOT)
+            viol = [l for l in p.stdout.splitlines() if l.startswith("VIOLATION")]
+            results[c] = {"exit": p.returncode, "violations": len(viol), "first": viol[:3], "tail": p.stdout.splitlines()[-1:] + p.stderr.splitlines()[-2:]}
+            print(c, "exit", p.returncode, "violations", len(viol), viol[:2] or (p.stdout.splitlines()[-2:] + p.stderr.splitlines()[-2:]), flush=True)
+        meta.setdefault("runs", []).append({"tier": tier, "results": results, "against": alt})
+        meta["caught_by"] = sorted(set(meta.get("caught_by", [])) | {c for c, v in results.items() if v["exit"] == 1})
+        json.dump(meta, open(os.path.join(dest, "meta.json"), "w"), indent=1)
+        return
     st = subprocess.run(["git", "-C", "/repo", "status", "--porcelain"], capture_output=True, text=True).stdout.strip()
     if st:
         sys.exit("/repo is not clean:\n" + st)
